@@ -153,7 +153,8 @@ func (x *Exec) callIterator(s *State, fr *Frame, spec *FuncSpec, key string, arg
 		panic(x.subsetf("cannot find the handler closure of the iterator call"))
 	}
 	x.modsOfClosure(m, fr.fn, mc, map[*ssa.Function]bool{})
-	x.havocMods(s, fr, m, nil)
+	x.havocMods(s, fr, m, map[*ssa.BasicBlock]bool{})
+	x.rebaseAlloc(s)
 	k := x.w.Reg.Fresh("iter.k", SInt)
 	s.assume(And(Le(IntT(0), k), Le(k, nmatch)))
 	x.assumeIterInvariants(s, fr, lspec, x.iterEnv(fr, k, nil), in)
@@ -183,7 +184,7 @@ func (x *Exec) callIterator(s *State, fr *Frame, spec *FuncSpec, key string, arg
 	// (c) visit match k
 	s.assume(Lt(k, nmatch))
 	mt := x.ghostApp("MatchAt", SInt, el.Term, ns.Term, tag.Term, k)
-	s.assume(And(Neq(mt, IntT(0)), Le(IntT(0), mt), Le(mt, Add(Var("alloc0", SInt), IntT(int64(s.nalloc))))))
+	s.assume(And(Neq(mt, IntT(0)), Le(IntT(0), mt), Le(mt, s.watermark())))
 	mv := Value{T: h.Clo.Fn.Params[1].Type(), Term: mt}
 	// per-visit element facts of the (assumed) iteration schema
 	{
